@@ -293,6 +293,8 @@ class FunctionRun:
                 st.assume(*st.heap.wf_graph(v.t))
         if any(isinstance(v.ty, TGraph) for v in st.env.values() if isinstance(v, Val)):
             st.assume(*st.heap.wf_refs())
+            if self.c.wf_all_graphs:
+                st.assume(*st.heap.wf_all())
             st.assume(*self.bonding_invariant(st, st.heap))
             st.assume(*self.fragid_invariant(st.heap))
         # graph references held in dict-valued inputs point at graphs that exist on entry
@@ -759,6 +761,8 @@ class FunctionRun:
         st.assume(*self.bonding_invariant(st, new))
         st.assume(*self.fragid_invariant(new))
         # the graphs that may have changed are still well-formed graphs (data-structure invariant of the models)
+        if self.c.wf_all_graphs:
+            st.assume(*new.wf_all())
         for m, cs in mod_terms:
             if not callable(m) and (cs is None or cs & {'nodes', 'hasn', 'nidx', 'hase', 'elist', 'eidx'} or any(c.startswith('e') for c in cs)):
                 st.assume(*new.wf_graph(m))
@@ -1130,6 +1134,8 @@ class FunctionRun:
             right = self.ev(right_e, st, spec, old)
             parts.append(self.compare_op(op, left, right, st, e, spec))
             left = right
+        if len(parts) == 1 and isinstance(parts[0], Val):
+            return parts[0]           # elementwise numpy comparison: a boolean array
         return Val(TBool, z3.And(*parts) if len(parts) > 1 else parts[0])
 
     def compare_op(self, op, a, b, st, node, spec):
@@ -1147,6 +1153,15 @@ class FunctionRun:
                 raise Unsupported('is on non-None')
             return r if name == 'Is' else z3.Not(r)
         sym = {'Eq': '==', 'NotEq': '!=', 'Lt': '<', 'LtE': '<=', 'Gt': '>', 'GtE': '>='}[name]
+        if isinstance(a, Val) and a.np and isinstance(a.ty, TList) and isinstance(lift(b), Val) and not isinstance(lift(b).ty, TList):
+            # numpy: array <op> scalar is elementwise and yields a boolean array
+            i = z3.Int(fresh_name('npc'))
+            elem = Val(a.ty.elem, ops.list_arr(a)[i])
+            ops.CTX.depth = len(self.bound_names)
+            ty = TList(TBool)
+            out = Val(ty, ty.mk(ops.mk_array(i, ops.compare(sym, elem, lift(b)), 'npcmp'), ops.list_len(a)))
+            out.np = True
+            return out
         return ops.compare(sym, a, b)
 
     def ex_IfExp(self, e, st, spec, old):
